@@ -282,3 +282,22 @@ def find_fn(facts, suffix, required=True):
 
 def find_fns(facts, suffix):
     return [Fn(f) for f in facts.get("functions", []) if f["name"] == suffix or f["name"].endswith("::" + suffix)]
+
+
+def callee_closure(root, fns, depth=3):
+    """root plus the functions of `fns` (a list of Fn of the same unit) that root calls, transitively (by qualified callee name)"""
+    by = {}
+    for g in fns:
+        by.setdefault(g.name, []).append(g)
+    out, seen, work = [root], {id(root)}, [(root, 0)]
+    while work:
+        g, d = work.pop()
+        if d >= depth:
+            continue
+        for i, x in g.calls():
+            for h in by.get(x.get("callee") or "", []):
+                if id(h) not in seen and len(h.params) == len(x.get("args", [])):
+                    seen.add(id(h))
+                    out.append(h)
+                    work.append((h, d + 1))
+    return out
